@@ -28,7 +28,7 @@ META = {
             "order and per-handler RPC names on every run (decide theorems over them) and by sending thousands of requests to the real API over recording RPC "
             "services, comparing status, body shape and recorded operations with the model and evaluating the Lean property clauses on the implementation's outputs.",
     "note": "Trusted: Lean kernel, hand-written model/spec, harness (recording services, classification of inputs), extractor. Known deviations of the unchanged tree "
-            "are recorded as K20 (405 with an empty body), K21/K22 (leniently parsed pin options), K01d (client cannot decode a pin with origins), "
-            "K23 (client widens composite status filters), K24 (/add reports late errors as 200+trailer/500), K26 (client does not escape path components).",
+            "are recorded as K20 (405 with an empty body), K01d (client cannot decode a pin with origins), "
+            "K24 (/add reports late errors as 200+trailer/500), K26 (client does not escape path components).",
     "technique": "Lean 4 theorems over an executable request model + go/ast translator + differential correspondence over HTTP",
 }
